@@ -647,3 +647,156 @@ def ring_windows(uc, starts, tol, tid0, route, maxlen=90, want=3):
                         "window": [j0, j1]})
             break
     return out
+
+
+# ------------------------------------------------------------------------------------------
+# float cells judged against the harness' own metric (near-degenerate cells at every scale)
+
+def exact_gi(cell):
+    """reciprocal metric tensor of a float cell: direct metric from the six parameters, inverse by
+    the adjugate (plain double precision arithmetic, no numpy.linalg, nothing of the code under test);
+    relative accuracy ~1e-13 on the property's domain"""
+    a, b, c = [float(x) for x in cell[:3]]
+    ca, cb, cg = [0.0 if x == 90.0 else math.cos(math.radians(x)) for x in cell[3:]]
+    m = [[a * a, a * b * cg, a * c * cb], [a * b * cg, b * b, b * c * ca], [a * c * cb, b * c * ca, c * c]]
+    d = det3(m)
+    ad = adj3(m)
+    return np.array([[ad[i][j] / d for j in range(3)] for i in range(3)], float)
+
+
+def near_cells(rng, n):
+    """seeded NEAR-DEGENERATE cells inside the property's domain, at every scale: angles a hair off 90 / 120
+    degrees (1e-4 .. 0.05 deg), edges a hair off each other (1e-6 .. 1e-3 relative), longest edge 20 .. 30 A
+    (three in five), 8 .. 15 A, 3 .. 6 A; exactly degenerate controls.  Yields (kind, cell)."""
+    kinds = ["orth-near", "hex-near", "mono-near", "cubic-near", "tetr-near", "orth-near", "rhomb-near", "exact"]
+    for i in range(n):
+        kind = kinds[i % len(kinds)]
+        top = (rng.uniform(20, 30), rng.uniform(24, 30), 30.0, rng.uniform(8, 15), rng.uniform(3, 6))[(i // len(kinds)) % 5]
+
+        def hair():
+            m = 10 ** rng.uniform(-4, -1.3) if rng.random() < 0.5 else rng.uniform(0.01, 0.05)
+            return m if rng.random() < 0.5 else -m
+
+        def split():
+            return 1.0 + rng.choice((-1, 1)) * 10 ** rng.uniform(-6, -3)
+        e = [top * rng.uniform(0.62, 1.0) for _ in range(3)]
+        e[rng.randrange(3)] = top
+        an = [90.0, 90.0, 90.0]
+        if kind == "orth-near":
+            for j in rng.sample(range(3), rng.choice((1, 2, 3, 3))):
+                an[j] += hair()
+        elif kind == "mono-near":
+            an[1] += hair()
+        elif kind == "hex-near":
+            e[1] = e[0] * (split() if rng.random() < 0.7 else 1.0)
+            an[2] = 120.0 + hair()
+            if rng.random() < 0.5:
+                an[rng.randrange(2)] += hair()
+        elif kind == "cubic-near":
+            e = [top, top * split(), top * split()]
+            an = [90.0 + hair() * rng.choice((0, 1, 1)) for _ in range(3)]
+        elif kind == "tetr-near":
+            e[1] = e[0] * split()
+        elif kind == "rhomb-near":
+            al = rng.choice((60.0, 90.0, 109.47, 70.5))
+            e = [top, top * split(), top * split()]
+            an = [al + hair(), al + hair(), al + hair()]
+        else:                        # exactly degenerate controls at the same scales
+            an[2] = rng.choice((90.0, 90.0, 120.0))
+            if an[2] == 120.0:
+                e[1] = e[0]
+        e = [min(30.0, max(2.0, x)) for x in e]
+        yield kind, tuple(e) + tuple(an)
+
+
+def judge_float_list(cell, cen, dsmax, peaks, Bmat, rel=1e-9):
+    """the list clauses of the property for a FLOAT cell, against the harness' own metric (exact_gi) at a
+    tolerance RELATIVE to d-star; membership is judged outside a relative margin of the limit.
+    returns (failed clauses, detail dict)"""
+    gi = exact_gi(cell)
+    nb = [int(dsmax * (1 + rel) * float(x)) + 1 for x in cell[:3]]
+    H = np.arange(-nb[0], nb[0] + 1, dtype=np.int64)[:, None, None]
+    K = np.arange(-nb[1], nb[1] + 1, dtype=np.int64)[None, :, None]
+    Lz = np.arange(-nb[2], nb[2] + 1, dtype=np.int64)[None, None, :]
+    q = (gi[0, 0] * H * H + gi[1, 1] * K * K + gi[2, 2] * Lz * Lz
+         + 2 * gi[1, 2] * K * Lz + 2 * gi[0, 2] * H * Lz + 2 * gi[0, 1] * H * K)
+    ok = ~textbook_absent_np(cen, H, K, Lz) & ~((H == 0) & (K == 0) & (Lz == 0))
+    e = np.sqrt(np.maximum(q, 0.0))
+
+    def codes_of(sel):
+        i, j, k = np.nonzero(sel)
+        return np.sort(code_np(np.stack([i - nb[0], j - nb[1], k - nb[2]], axis=1).astype(np.int64)))
+    must = codes_of(ok & (e < dsmax * (1 - rel)))
+    may = codes_of(ok & (e < dsmax * (1 + rel)))
+    fails, det = [], {"n_real": len(peaks), "n_must": int(len(must))}
+    hkl, ds = list_arrays(peaks)
+    if len(hkl) and np.abs(hkl).max() >= 256:
+        return ["unsound"], {"extra": "an index beyond 255"}
+    codes = code_np(hkl) if len(hkl) else np.zeros(0, np.int64)
+    u = np.unique(codes)
+    miss = np.setdiff1d(must, u, assume_unique=True)
+    extra = np.setdiff1d(u, may, assume_unique=True)
+    if len(miss):
+        fails.append("incomplete")
+        det["missing"], det["n_missing"] = hkls_of(miss), int(len(miss))
+    if len(extra):
+        fails.append("unsound")
+        det["extra"], det["n_extra"] = hkls_of(extra), int(len(extra))
+    if len(u) != len(codes):
+        fails.append("duplicates")
+    if len(hkl):
+        hf = hkl.astype(float)
+        ex = np.sqrt(np.einsum("ij,jk,ik->i", hf, gi, hf))
+        if (np.diff(ds) < 0).any() or (ex[1:] < ex[:-1] * (1 - 2 * rel)).any():
+            fails.append("not-ascending")
+        err = np.abs(ds - ex) / ex
+        if (err > rel).any():
+            fails.append("ds-value")
+            j = int(np.argmax(err))
+            det["ds"] = "listed d*(%s) = %r, |B.hkl| from the cell parameters = %r (relative error %.3g)" % (
+                tuple(int(x) for x in hkl[j]), float(ds[j]), float(ex[j]), float(err[j]))
+        bl = np.sqrt(((hf @ np.asarray(Bmat, float).T) ** 2).sum(axis=1))
+        if (np.abs(ds - bl) > rel * bl).any():
+            fails.append("ds-vs-B")
+        det["ex"] = ex
+    return fails, det
+
+
+# ------------------------------------------------------------------------------------------
+# object histories (specs/HklObject.tla): injection into a running public call
+
+class Injected(Exception):
+    """the exception the harness delivers inside a public call of the object under test"""
+
+
+def profiled(fn, body, n, action):
+    """run fn() and count the calls made BY the function named `body` of unitcell.py (python calls such
+    as self.ds / self.absent and C calls such as append / sort / abs: the points where a signal handler
+    can run); at the n-th one `action()` is executed (it may raise: the exception then comes out of that
+    call, or call into the object again: a re-entrant request).  The call of gethkls made by makerings
+    is not a point of body "makerings".  returns (result of fn, number of calls counted, fired)"""
+    import sys
+    cnt, fired = [0], [False]
+
+    def prof(frame, event, arg):
+        if event == "call":
+            fr = frame.f_back
+            if body == "makerings" and frame.f_code.co_name == "gethkls":
+                return
+        elif event == "c_call":
+            fr = frame
+        else:
+            return
+        if fr is None or fr.f_code.co_name != body or not fr.f_code.co_filename.endswith("unitcell.py"):
+            return
+        cnt[0] += 1
+        if cnt[0] == n:
+            fired[0] = True
+            action()
+    old = sys.getprofile()
+    sys.setprofile(prof)
+    try:
+        r = fn()
+    finally:
+        sys.setprofile(old)
+    return r, cnt[0], fired[0]
